@@ -44,6 +44,10 @@ class RayGenerator:
             x1 = Px * vx + x0
             y1 = Py * vy + y0
         else:
+            if (self.optic.aperture.ap_type == 'objectNA'
+                    and self.optic.object_surface.is_infinite):
+                raise ValueError('Aperture type cannot be "objectNA" for an '
+                                 'object at infinity.')
             EPL = self.optic.paraxial.EPL()
             EPD = self.optic.paraxial.EPD()
 
